@@ -613,7 +613,14 @@ class SqlEval:
             r = fresh_int("subrow")
             if len(sub.cols) != 1:
                 raise Unsupported("SQL IN (SELECT ...) with several columns")
-            v, vn = self.expr(sub.cols[0][0], stab, r)
+            col0 = sub.cols[0][0]
+            if col0 != "*" and col0[0] == "col" and stab.schema.pk == [col0[1]]:
+                # the subquery selects the primary key of its table, and tables are keyed by it: membership is a direct
+                # look-up of the row with that key (exact, and free of the existential quantifier); a NULL operand makes
+                # both IN and NOT IN unknown, i.e. the row is not selected
+                inner = z3.And(z3.Select(stab.exists, a), self.cond(sub.where, stab, a))
+                return z3.And(z3.Not(an), z3.Not(inner) if e[3] else inner)
+            v, vn = self.expr(col0, stab, r)
             body = z3.And(z3.Select(stab.exists, r), self.cond(sub.where, stab, r), z3.Not(vn), v == a)
             c = z3.And(z3.Not(an), z3.Exists([r], body))
             return z3.Not(c) if e[3] else c
